@@ -1,8 +1,7 @@
 // The per-ABI horizontal helpers of simd_vector/extintrin.h called directly (C16, mechanism 2):
 // _mm_hmax/_hmin_ps/_pd, _mm256_hmax/_hmin_ps/_pd, _mm_sum/_prod_ps/_pd, _mm256_sum/_prod_ps/_pd.
-// Every line goes through the Lean model (Model/Horizontal.lean), which evaluates the same shuffle program with the
-// immediates that props/c16.py read from the source text (`imm=`); `struct=` / `imms=` say whether the normalised body
-// text / the immediates are the ones the model and the theorems were written for (the model answers ok / theorem).
+// Every line goes through the Lean driver, which EXECUTES the definition that vlib/xlate_simd.py generated from the
+// current source for this build configuration (Generated/Simd_<isa>.lean) on the same lanes.
 // Data: integer-valued lanes; an extreme in EVERY lane on all-positive / all-negative / mixed backgrounds for min/max,
 // distinct powers of two (+ random multiples of 2^16) for sums, small primes for products.
 #include <Fastor/Fastor.h>
@@ -19,7 +18,7 @@ static inline std::string num(double v) { char b[64]; std::snprintf(b, sizeof b,
 
 // kind: 0 max, 1 min, 2 sum, 3 product
 template<typename T, int L, class F>
-void hstep(const char* fn, const char* imm, const char* st, const char* ims, int kind, uint32_t ds, F f) {
+void hstep(const char* fn, int kind, uint32_t ds, F f) {
     uint32_t s = ds * 40503u + (uint32_t)(L * 17 + kind);
     static const int primes[8] = {2, 3, 5, 7, 11, 13, 17, 19};
     int ncase = kind < 2 ? 3 * L * 2 : 4;
@@ -37,17 +36,17 @@ void hstep(const char* fn, const char* imm, const char* st, const char* ims, int
         double want = (double)x[0];
         for (int i = 1; i < L; ++i) want = kind == 0 ? std::max(want, (double)x[i]) : kind == 1 ? std::min(want, (double)x[i]) : kind == 2 ? want + (double)x[i] : want * (double)x[i];
         T got = f(x);
-        std::printf("hstep cfg=%s fn=%s imm=%s struct=%s imms=%s ds=%u x=", CFGNAME, fn, imm, st, ims, ds);
+        std::printf("hstep cfg=%s fn=%s ds=%u x=", CFGNAME, fn, ds);
         for (int i = 0; i < L; ++i) std::printf("%s%s", i ? "," : "", num((double)x[i]).c_str());
-        std::printf(" | STRUCT=%s IMMS=%s R=%s ORACLE=%s\n", st, ims, num((double)got).c_str(), (double)got == want ? "ok" : "FAIL");
+        std::printf(" | R=%s ORACLE=%s\n", num((double)got).c_str(), (double)got == want ? "ok" : "FAIL");
     }
 }
 #define HSTEP(T, L, FN, KIND, LOAD, CALL) \
-    rh::hstep<T, L>(#FN, imm, st, ims, KIND, ds, [](const T* x) { auto a = LOAD(x); return CALL(a); })
+    rh::hstep<T, L>(#FN, KIND, ds, [](const T* x) { auto a = LOAD(x); return CALL(a); })
 
 } // namespace rh
-// one call per helper; imm / st / ims come from props/c16.py
-#define HS_ARGS const char* imm, const char* st, const char* ims, uint32_t ds
+// one call per helper
+#define HS_ARGS uint32_t ds
 static inline void hs_hmax_ps(HS_ARGS)  { HSTEP(float, 4, hmax_ps, 0, _mm_loadu_ps, Fastor::_mm_hmax_ps); }
 static inline void hs_hmin_ps(HS_ARGS)  { HSTEP(float, 4, hmin_ps, 1, _mm_loadu_ps, Fastor::_mm_hmin_ps); }
 static inline void hs_hmax_pd(HS_ARGS)  { HSTEP(double, 2, hmax_pd, 0, _mm_loadu_pd, Fastor::_mm_hmax_pd); }
@@ -56,6 +55,9 @@ static inline void hs_sum_ps(HS_ARGS)   { HSTEP(float, 4, sum_ps, 2, _mm_loadu_p
 static inline void hs_prod_ps(HS_ARGS)  { HSTEP(float, 4, prod_ps, 3, _mm_loadu_ps, Fastor::_mm_prod_ps); }
 static inline void hs_sum_pd(HS_ARGS)   { HSTEP(double, 2, sum_pd, 2, _mm_loadu_pd, Fastor::_mm_sum_pd); }
 static inline void hs_prod_pd(HS_ARGS)  { HSTEP(double, 2, prod_pd, 3, _mm_loadu_pd, Fastor::_mm_prod_pd); }
+#define VF_LOADI(x) _mm_loadu_si128((const __m128i*)(x))
+static inline void hs_sum_epi32(HS_ARGS)  { HSTEP(int32_t, 4, sum_epi32, 2, VF_LOADI, Fastor::_mm_sum_epi32); }
+static inline void hs_prod_epi32(HS_ARGS) { HSTEP(int32_t, 4, prod_epi32, 3, VF_LOADI, Fastor::_mm_prod_epi32); }
 #ifdef FASTOR_AVX_IMPL
 static inline void hs_hmax256_ps(HS_ARGS) { HSTEP(float, 8, hmax256_ps, 0, _mm256_loadu_ps, Fastor::_mm256_hmax_ps); }
 static inline void hs_hmin256_ps(HS_ARGS) { HSTEP(float, 8, hmin256_ps, 1, _mm256_loadu_ps, Fastor::_mm256_hmin_ps); }
@@ -65,5 +67,53 @@ static inline void hs_sum256_ps(HS_ARGS)  { HSTEP(float, 8, sum256_ps, 2, _mm256
 static inline void hs_prod256_ps(HS_ARGS) { HSTEP(float, 8, prod256_ps, 3, _mm256_loadu_ps, Fastor::_mm256_prod_ps); }
 static inline void hs_sum256_pd(HS_ARGS)  { HSTEP(double, 4, sum256_pd, 2, _mm256_loadu_pd, Fastor::_mm256_sum_pd); }
 static inline void hs_prod256_pd(HS_ARGS) { HSTEP(double, 4, prod256_pd, 3, _mm256_loadu_pd, Fastor::_mm256_prod_pd); }
+#endif
+
+#ifdef FASTOR_AVX_IMPL
+// ---------------------------------------------------------------------------------------------
+// the intrinsic SPECIALISATIONS of the reduction back ends called directly: _norm<T,4|9>, _trace<T,2|3>, the AVX _det<T,2|3>,
+// _doublecontract<T,2|3>; the driver executes the definitions generated by props/c16_xlate.py (Generated/C16Spec_<isa>.lean)
+// on the same integer-valued elements.  `_norm`: the radicand round(r*r) is compared (sqrt is the identity in the driver).
+namespace rh {
+// what: 0 norm (radicand), 1 trace, 2 det, 3 doublecontract
+template<typename T, int N, class F>
+void hspec(const char* fn, int what, int M, uint32_t ds, F f) {
+    uint32_t s = ds * 92821u + (uint32_t)(N * 7 + what);
+    for (int c = 0; c < 6; ++c) {
+        alignas(64) T x[16], y[16];
+        for (int i = 0; i < 16; ++i) { x[i] = (T)((int)(rnd(s) % 15) - 7); y[i] = (T)((int)(rnd(s) % 9) - 4); }
+        if (c == 1) for (int i = 0; i < N; ++i) x[i] = (T)(-1 - (int)(rnd(s) % 7));       // all negative
+        double want = 0;
+        if (what == 0) for (int i = 0; i < N; ++i) want += (double)x[i] * x[i];
+        else if (what == 1) for (int i = 0; i < M; ++i) want += (double)x[i * M + i];
+        else if (what == 2) want = M == 2 ? (double)x[0] * x[3] - (double)x[1] * x[2]
+                                  : (double)x[0] * (x[4] * x[8] - x[5] * x[7]) - (double)x[1] * (x[3] * x[8] - x[5] * x[6]) + (double)x[2] * (x[3] * x[7] - x[4] * x[6]);
+        else for (int i = 0; i < N; ++i) want += (double)x[i] * y[i];
+        double got = (double)f(x, y);
+        if (what == 0) got = std::round(got * got);
+        std::printf("hspec cfg=%s fn=%s ds=%u x=", CFGNAME, fn, ds);
+        for (int i = 0; i < N; ++i) std::printf("%s%s", i ? "," : "", num((double)x[i]).c_str());
+        if (what == 3) { std::printf(" y="); for (int i = 0; i < N; ++i) std::printf("%s%s", i ? "," : "", num((double)y[i]).c_str()); }
+        std::printf(" | R=%s ORACLE=%s\n", num(got).c_str(), got == want ? "ok" : "FAIL");
+    }
+}
+}
+#define HSPEC(T, N, FN, WHAT, M, CALL) rh::hspec<T, N>(#FN, WHAT, M, ds, [](const T* x, const T* y) { (void)y; return CALL; })
+static inline void hp_norm_float_4(HS_ARGS)   { HSPEC(float, 4, norm_float_4, 0, 0, (Fastor::_norm<float,4>(x))); }
+static inline void hp_norm_float_9(HS_ARGS)   { HSPEC(float, 9, norm_float_9, 0, 0, (Fastor::_norm<float,9>(x))); }
+static inline void hp_norm_double_4(HS_ARGS)  { HSPEC(double, 4, norm_double_4, 0, 0, (Fastor::_norm<double,4>(x))); }
+static inline void hp_norm_double_9(HS_ARGS)  { HSPEC(double, 9, norm_double_9, 0, 0, (Fastor::_norm<double,9>(x))); }
+static inline void hp_trace_float_2x2(HS_ARGS)  { HSPEC(float, 4, trace_float_2x2, 1, 2, (Fastor::_trace<float,2,2>(x))); }
+static inline void hp_trace_float_3x3(HS_ARGS)  { HSPEC(float, 9, trace_float_3x3, 1, 3, (Fastor::_trace<float,3,3>(x))); }
+static inline void hp_trace_double_2x2(HS_ARGS) { HSPEC(double, 4, trace_double_2x2, 1, 2, (Fastor::_trace<double,2,2>(x))); }
+static inline void hp_trace_double_3x3(HS_ARGS) { HSPEC(double, 9, trace_double_3x3, 1, 3, (Fastor::_trace<double,3,3>(x))); }
+static inline void hp_det_float_2(HS_ARGS)   { HSPEC(float, 4, det_float_2, 2, 2, (Fastor::_det<float,2,2>(x))); }
+static inline void hp_det_float_3(HS_ARGS)   { HSPEC(float, 9, det_float_3, 2, 3, (Fastor::_det<float,3,3>(x))); }
+static inline void hp_det_double_2(HS_ARGS)  { HSPEC(double, 4, det_double_2, 2, 2, (Fastor::_det<double,2,2>(x))); }
+static inline void hp_det_double_3(HS_ARGS)  { HSPEC(double, 9, det_double_3, 2, 3, (Fastor::_det<double,3,3>(x))); }
+static inline void hp_doublecontract_float_2x2(HS_ARGS)  { HSPEC(float, 4, doublecontract_float_2x2, 3, 2, (Fastor::_doublecontract<float,2,2>(x, y))); }
+static inline void hp_doublecontract_float_3x3(HS_ARGS)  { HSPEC(float, 9, doublecontract_float_3x3, 3, 3, (Fastor::_doublecontract<float,3,3>(x, y))); }
+static inline void hp_doublecontract_double_2x2(HS_ARGS) { HSPEC(double, 4, doublecontract_double_2x2, 3, 2, (Fastor::_doublecontract<double,2,2>(x, y))); }
+static inline void hp_doublecontract_double_3x3(HS_ARGS) { HSPEC(double, 9, doublecontract_double_3x3, 3, 3, (Fastor::_doublecontract<double,3,3>(x, y))); }
 #endif
 static bool g_verbose = false;
